@@ -399,6 +399,13 @@ def factory_call(env, spec):
         return sorted(n for n in names if not n.startswith("ref"))
     out = ["factory", mine(fa.all_solvers(logic=lg)), bool(fa.has_solvers(logic=lg)),
            mine(fa.all_unsat_core_solvers(logic=lg)), mine(fa.all_solvers())]
+    # the preference list of THIS factory mentions, besides the built-in names, exactly the
+    # generic solvers registered with THIS factory, once each
+    own = [n for n in fa.all_solvers() if fa.is_generic_solver(n)]
+    extras = [n for n in fa.preferences["Solver"] if n.startswith("gen")]
+    if sorted(extras) != sorted(n for n in own if n.startswith("gen")):
+        return ("factory-preferences-foreign", "preference list mentions %s, generic solvers of this factory: %s" %
+                (extras, sorted(own)))
     for n in mine(fa.all_solvers()):
         if fa.is_generic_solver(n):
             out.append([n, [str(l) for l in fa.get_generic_solver_info(n)[1]]])
